@@ -193,10 +193,14 @@ def activate (combine : Nat → Word → Nat) (g : List Word) (n : Nat) (s : St)
     | none => .error .format
     | some i => .ok (s.modify (.mid (n - 3) i) setExtension)
 
+/-- the `Weights` read from one n-gram line (`ReadNGram` + `SetRest` + `util::SetSign(prob)`) -/
+def lineW (e : Entry) : W :=
+  { mag := e.prob.abs, neg := true, backoff := e.backoff, xr := decide (e.backoff ≠ 0), rest := -e.prob.abs }
+
 /-- one line of `ReadNGrams` for order `n ≥ 2`; `g` reversed (newest word first), `top` = highest order -/
 def addLine (combine : Nat → Word → Nat) (rest : Bool) (order : Nat) (s : St) (g : List Word) (e : Entry) : Except BErr St := do
   let n := g.length
-  let w : W := { mag := e.prob.abs, neg := true, backoff := e.backoff, xr := decide (e.backoff ≠ 0), rest := -e.prob.abs }
+  let w : W := lineW e
   let key := hashOf combine g
   let s1 ←
     if n == order then do
